@@ -102,12 +102,26 @@ def extra(res, lean, drv, tier, rnd):
     # pushes injected right before the consumer's k-th read(2) of the eventfd (schedule forcing without hooks)
     slines = ['qsys %d %d' % (k, n) for k in range(1, 7) for n in (1, 2, 3)]
     core.kdiff(res, None, drv, slines, oracle=oracle_sys, classify=lambda l, o: ('qsys',) + tuple(l.split()[1:]) + (o,), tag='qsys:')
+    # the queue bound in a process whose descriptor 0 is free (a daemon without standard input): its eventfd is descriptor 0
+    flines = ['qfd %d' % n for n in (1, 2, 5)]
+    core.kdiff(res, None, drv, flines, oracle=oracle_fd0, classify=lambda l, o: ('qfd', l.split()[1], o), tag='qfd:')
+
+def oracle_fd0(ln, out):
+    n = int(ln.split()[1])
+    if out.startswith(('ASAN', 'UBSAN', 'HANG', 'CRASH', 'TERMINATE', 'MISSING')) or 'failed' in out: return ('crash', 'implementation aborted/hung: ' + out[:120])
+    f = dict(kv.split('=', 1) for kv in out.split(' ') if '=' in kv)
+    if f.get('wake') != '1': return ('missed-wakeup', '%d item(s) pushed onto a queue whose eventfd is descriptor %s: no notification pending' % (n, f.get('efd')))
+    if f.get('popped') != str(n): return ('lost', '%s of %d items came out of a queue whose eventfd is descriptor %s' % (f.get('popped'), n, f.get('efd')))
+    return None
 
 def run(tier):
     return core.standard_run(PROP, tier, MODULES, THEOREMS, gen, oracle, classify, RULE, ASSUME, driver=('drv_sched', drivers.SCHED_SOURCES), extra=extra)
 def replay(path):
     import json
     case = json.load(open(path)).get('case') or ''
+    if case.startswith('qfd '):
+        out = core.run_lines(core.build_driver('drv_sched', drivers.SCHED_SOURCES)[0], [case])[0]; d = core.safe_oracle(oracle_fd0, case, out)
+        print('case:', case); print('impl:', out); print('oracle:', d or 'holds'); return 1 if d else 0
     if case.startswith('qsys '):
         out = core.run_lines(core.build_driver('drv_sched', drivers.SCHED_SOURCES)[0], [case])[0]; d = core.safe_oracle(oracle_sys, case, out)
         print('case:', case); print('impl:', out); print('oracle:', d or 'holds'); return 1 if d else 0
